@@ -390,3 +390,134 @@ func checkLockCover(p *load.Program, r *kit.Report, rule string) {
 	}
 	r.CallSites += pairs
 }
+
+// LOCK-RELEASE — no function returns with a mutex it took itself still held (no deferred unlock
+// covering that return). The early `return` added in front of an explicit Unlock is the commonest
+// way to freeze a component: the next caller blocks for ever, and with it whatever waits for that
+// caller (Stop, the manager's polling, Run).
+var lockReleaseOwners = map[string][]string{
+	H + ".Repository":            {"C08", "C09"},
+	R + ".TxManager":             {"C06"},
+	R + ".txMap":                 {"C06"},
+	R + ".TxData":                {"C06"},
+	R + ".BlockManager":          {"C16"},
+	R + ".BlockDownloader":       {"C16"},
+	R + ".StoragePeerRepository": {"C20"},
+	R + ".MessageChannel":        {"C15"},
+	R + ".BitcoinNode":           {"C13", "C15"},
+	R + ".NodeManager":           {"C05", "C15"},
+}
+
+func ownsLockRelease(property string) bool {
+	for _, ps := range lockReleaseOwners {
+		for _, q := range ps {
+			if q == property {
+				return true
+			}
+		}
+	}
+	return false
+}
+
+func checkLockRelease(p *load.Program, r *kit.Report, rule string) {
+	owned := func(owner string) bool {
+		for _, q := range lockReleaseOwners[owner] {
+			if q == r.Property {
+				return true
+			}
+		}
+		return false
+	}
+	k := newKeyer()
+	n := 0
+	for _, f := range pkgFuncs(p, R, H) {
+		if f.Blocks == nil || strings.HasSuffix(p.FileOf(f.Pos()), "_test.go") || strings.HasSuffix(p.FileOf(f.Pos()), "test_helpers.go") || strings.HasSuffix(p.FileOf(f.Pos()), "test_nodes.go") {
+			continue
+		}
+		// the locks this function takes, with the struct that holds the mutex
+		lin := kit.NewLin(f)
+		taken := map[string]string{} // key → owner struct
+		type dfr struct {
+			key, mode string
+			b         *ssa.BasicBlock
+		}
+		var defers []dfr
+		kit.AllInstrs(f, func(in ssa.Instruction) {
+			c, ok := in.(ssa.CallInstruction)
+			if !ok {
+				return
+			}
+			key, mode, op := kit.LockOp(lin, c)
+			if op == 0 {
+				return
+			}
+			if _, isDefer := in.(*ssa.Defer); isDefer {
+				if op < 0 {
+					defers = append(defers, dfr{key, mode, in.Block()})
+				}
+				return
+			}
+			if op > 0 {
+				owner := ""
+				if args := c.Common().Args; len(args) > 0 {
+					if fa, ok := args[0].(*ssa.FieldAddr); ok {
+						if pkg, typ, ok := ownerOf(fa); ok {
+							owner = pkg + "." + typ
+						}
+					}
+				}
+				taken[key+":"+mode] = owner
+			}
+		})
+		if len(taken) == 0 {
+			continue
+		}
+		anyOwned := false
+		for _, o := range taken {
+			if owned(o) {
+				anyOwned = true
+			}
+		}
+		if !anyOwned {
+			continue
+		}
+		entry := entryLocks(p)[f]
+		li := kit.Lockset(f, entry)
+		name := kit.ShortID(kit.FuncID(f))
+		bad := ""
+		var at ssa.Instruction = f.Blocks[0].Instrs[0]
+		for _, ret := range kit.Returns(f) {
+			if !li.Reached(ret) {
+				continue
+			}
+			for km, owner := range taken {
+				if !owned(owner) || entry[km] {
+					continue
+				}
+				i := strings.LastIndex(km, ":")
+				key, mode := km[:i], km[i+1:]
+				if !li.Holds(ret, key, mode == "w") {
+					continue
+				}
+				if mode == "r" && li.Holds(ret, key, true) {
+					continue // reported for the write mode
+				}
+				covered := false
+				for _, d := range defers {
+					if d.key == key && d.mode == mode && d.b.Dominates(ret.Block()) {
+						covered = true
+					}
+				}
+				if !covered {
+					at = ret
+					bad = name + " returns (" + retLabel(ret) + ") with " + key + " still held (no deferred unlock covers this return): the next caller that needs the lock blocks for ever, and with it everything that waits for that caller"
+				}
+			}
+		}
+		n++
+		r.Check(bad == "", rule, k.key(name+"/returns-unlocked"), posOf(p, at), "every return releases what the function locked", bad)
+	}
+	if n == 0 {
+		r.Unknown(rule, "lockrelease/functions", "-", "no function takes a mutex of this property's structs")
+	}
+}
